@@ -4,6 +4,7 @@ import (
 	"fmt"
 	"go/constant"
 	"go/token"
+	"go/types"
 	"sort"
 	"strings"
 
@@ -40,6 +41,9 @@ func runC11(c *Ctx) {
 	c11ErrorWrap(c, bridge)
 	c11KindTables(c)
 	c11ConverterShape(c, bridge)
+	c11NumberArms(c)
+	c11SourceReturn(c, bridge)
+	c11StringByFormatting(c, bridge)
 }
 
 // c11ConverterShape: a nil conversion result means "null for this parameter" to the call bridge (it
@@ -849,4 +853,215 @@ func (c *Ctx) globalKindList(name string) map[int64]bool {
 		out[v] = true
 	}
 	return out
+}
+
+// c11NumberArms: the numeric converter's integer results are Go conversions applied directly to what the decimal
+// yields (Float64()/Int64()): Go's float->int conversion truncates toward zero, which is what the property requires.
+// Any call in between (math.Floor, math.Round, RoundToInt ...) changes the rounding for negative or fractional values.
+func c11NumberArms(c *Ctx) {
+	const rule = "C11.number-conversion"
+	conv := c.fn("convToBasicNumber")
+	if conv == nil {
+		c.R.Undecided(rule, "converter", "-", "numeric converter not found")
+		return
+	}
+	n := 0
+	var walk func(v ssa.Value, seen map[ssa.Value]bool) string
+	walk = func(v ssa.Value, seen map[ssa.Value]bool) string {
+		if seen[v] {
+			return ""
+		}
+		seen[v] = true
+		switch x := v.(type) {
+		case *ssa.Convert:
+			return walk(x.X, seen)
+		case *ssa.ChangeType:
+			return walk(x.X, seen)
+		case *ssa.MakeInterface:
+			return walk(x.X, seen)
+		case *ssa.Phi:
+			for _, e := range x.Edges {
+				if why := walk(e, seen); why != "" {
+					return why
+				}
+			}
+			return ""
+		case *ssa.Extract:
+			if call, ok := x.Tuple.(*ssa.Call); ok && x.Index == 0 {
+				if cal := calleeOf(call); cal != nil {
+					switch cal.String() {
+					case "(*github.com/ericlagergren/decimal.Big).Float64", "(*github.com/ericlagergren/decimal.Big).Int64":
+						return ""
+					}
+					return "a call of " + cal.String()
+				}
+			}
+			return "an unresolved multi-value call"
+		case *ssa.Call:
+			if cal := calleeOf(x); cal != nil {
+				return "a call of " + cal.String()
+			}
+			return "a dynamic call"
+		case *ssa.BinOp:
+			return "arithmetic (" + x.Op.String() + ")"
+		case *ssa.Const:
+			return "a constant"
+		}
+		return fmt.Sprintf("%T", v)
+	}
+	per := map[string]int{}
+	instrs(conv, func(b *ssa.BasicBlock, i int, in ssa.Instruction) {
+		ret, ok := in.(*ssa.Return)
+		if !ok || len(ret.Results) != 2 || !isNilConst(ret.Results[1]) {
+			return
+		}
+		mi, ok := ret.Results[0].(*ssa.MakeInterface)
+		if !ok {
+			return
+		}
+		bt, ok := mi.X.Type().Underlying().(*types.Basic)
+		if !ok || bt.Info()&types.IsNumeric == 0 {
+			return
+		}
+		n++
+		per[bt.Name()]++
+		why := walk(mi.X, map[ssa.Value]bool{})
+		what := "truncation toward zero"
+		if bt.Info()&types.IsFloat != 0 {
+			what = "the nearest value"
+		}
+		c.R.Check(rule, fmt.Sprintf("result:%s#%d", bt.Name(), per[bt.Name()]), c.P.InstrPos(ret), why == "", "a number converted to "+bt.Name()+" must be Go's conversion of the decimal's Float64()/Int64() ("+what+"); this result passes through "+why)
+	})
+	c.R.Floor(rule, 5)
+}
+
+// c11SourceReturn: a per-kind converter may hand back its source unchanged only behind a test that the source's
+// type IS the target type (== target or AssignableTo(target)); element-type equality is not enough (an array is
+// not a slice), and the array converter's result is otherwise a slice made here.
+func c11SourceReturn(c *Ctx, br *callBridge) {
+	const rule = "C11.converter-identity"
+	top := calleeOf(br.Conv)
+	rr := c.P.Reach([]*ssa.Function{top}, c.inModule, nil)
+	n := 0
+	for _, f := range rr.Order {
+		if f == top {
+			continue
+		}
+		sig := f.Signature
+		if sig.Params().Len() != 2 || sig.Results().Len() != 2 || sig.Params().At(1).Type().String() != "reflect.Type" || sig.Results().At(1).Type().String() != "error" {
+			continue
+		}
+		src, tgt := f.Params[0], f.Params[1]
+		instrs(f, func(b *ssa.BasicBlock, i int, in ssa.Instruction) {
+			ret, ok := in.(*ssa.Return)
+			if !ok || !isNilConst(ret.Results[1]) {
+				return
+			}
+			n++
+			isSrc := false
+			for _, rt := range plainOrigins.Roots(ret.Results[0]) {
+				if rt.Kind == "param" && rt.V == ssa.Value(src) && len(rt.Path) == 0 {
+					isSrc = true
+				}
+			}
+			if !isSrc {
+				return
+			}
+			// a dominating true edge of `X == target` / `X.AssignableTo(target)`
+			gated := false
+			for d := b; d != nil; d = d.Idom() {
+				id := d.Idom()
+				if id == nil {
+					break
+				}
+				ifi, ok := id.Instrs[len(id.Instrs)-1].(*ssa.If)
+				if !ok || len(id.Succs) != 2 {
+					continue
+				}
+				onTrue := id.Succs[0] == d && id.Succs[1] != d
+				onFalse := id.Succs[1] == d && id.Succs[0] != d
+				switch x := ifi.Cond.(type) {
+				case *ssa.BinOp:
+					if (x.Op == token.EQL && onTrue || x.Op == token.NEQ && onFalse) && (x.X == ssa.Value(tgt) || x.Y == ssa.Value(tgt)) {
+						gated = true
+					}
+				case *ssa.Call:
+					if onTrue && x.Call.IsInvoke() && (x.Call.Method.Name() == "AssignableTo") && len(x.Call.Args) == 1 && x.Call.Args[0] == ssa.Value(tgt) {
+						gated = true
+					}
+				}
+			}
+			c.R.Check(rule, c.P.FuncKey(f)+": returns-source", c.P.InstrPos(ret), gated, "this converter returns its source unchanged without having tested that the source's type is the target type (`== target` / `AssignableTo(target)`): e.g. a Go array would reach a slice parameter unconverted and the reflective call panics or the host sees the caller's own backing store")
+		})
+	}
+	c.R.Add(rule, "success-returns-examined", "-", OK, "")
+	c.R.Analysed["converter_success_returns"] = n
+}
+
+// c11StringByFormatting: a string parameter is filled by formatting. reflect's Convert turns an integer kind into
+// the one-rune string with that code point (uint8(7) -> "\a"), so the generic Convert shortcut must not be taken
+// for an integer source and a string target.
+func c11StringByFormatting(c *Ctx, br *callBridge) {
+	const rule = "C11.string-by-formatting"
+	top := calleeOf(br.Conv)
+	if top == nil || len(top.Params) != 2 {
+		c.R.Undecided(rule, "converter", "-", "top-level converter not found")
+		return
+	}
+	var strKind int64 = -1
+	var intKinds []kindConst
+	for _, kn := range reflectKinds(c) {
+		switch kn.name {
+		case "String":
+			strKind = kn.val
+		case "Int", "Int8", "Int16", "Int32", "Int64", "Uint", "Uint8", "Uint16", "Uint32", "Uint64", "Uintptr":
+			intKinds = append(intKinds, kn)
+		}
+	}
+	sort.Slice(intKinds, func(i, j int) bool { return intKinds[i].val < intKinds[j].val })
+	usesConvert := false
+	instrs(top, func(b *ssa.BasicBlock, i int, in ssa.Instruction) {
+		if call, ok := in.(*ssa.Call); ok {
+			if cal := calleeOf(call); cal != nil && cal.String() == "(reflect.Value).Convert" {
+				usesConvert = true
+			}
+		}
+	})
+	if !usesConvert {
+		c.R.Add(rule, "no-generic-convert", c.P.Pos(top.Pos()), OK, "")
+		return
+	}
+	for _, kn := range intKinds {
+		r := c.foldWith(top, 0,
+			pinCall("Kind", cInt(strKind), func(call *ssa.Call) bool { return call.Call.IsInvoke() }),
+			pinCall("(reflect.Value).Kind", cInt(kn.val), nil),
+			pinCall("(reflect.Value).IsValid", cTrue, nil),
+			pinCall("(reflect.Value).CanConvert", cTrue, nil),
+			pinCall("(reflect.Value).CanInt", boolConst(kn.val <= 6), nil),
+			pinCall("(reflect.Value).CanUint", boolConst(kn.val > 6), nil),
+			pinCall("formula.IsNull", cFalse, nil))
+		bad := ""
+		for _, ret := range r.Returns {
+			if !isNilConst(ret.Results[1]) {
+				continue
+			}
+			for _, rt := range plainOrigins.Roots(ret.Results[0]) {
+				if rt.Kind != "call" || rt.Fn == nil {
+					continue
+				}
+				if rt.Fn.String() == "(reflect.Value).Convert" {
+					bad = c.P.InstrPos(ret)
+				}
+				if call, ok := rt.V.(*ssa.Call); ok && rt.Fn.String() == "(reflect.Value).Interface" && len(call.Call.Args) > 0 {
+					for _, r2 := range plainOrigins.Roots(call.Call.Args[0]) {
+						if r2.Kind == "call" && r2.Fn != nil && r2.Fn.String() == "(reflect.Value).Convert" {
+							bad = c.P.InstrPos(ret)
+						}
+					}
+				}
+			}
+		}
+		c.R.Check(rule, "source-kind:"+kn.name, c.P.Pos(top.Pos()), bad == "", "a "+strings.ToLower(kn.name)+" argument for a string parameter is converted with reflect.Value.Convert ("+bad+"), which yields the one-character string with that code point (uint8(7) becomes \"\\a\", not \"7\"); a string parameter must be filled by formatting")
+	}
+	c.R.Floor(rule, 8)
 }
